@@ -115,6 +115,8 @@ class SeriesOps:
         if name == "dropna":
             c = s.ctx
             return Ser(s.term, (c[0], T.and_(c[1], ("notnull", s.term)), c[2]) if len(c) == 3 else c, s.frame, s.name)
+        if name == "duplicated":
+            return s.with_term(("duplicated", kw.get("keep", pos[0] if pos else "first"), (s.term,), s.ctx))
         if name == "value_counts":
             return Frame(("value_counts", s.term, s.ctx))
         if name == "get":
@@ -132,6 +134,10 @@ class SeriesOps:
         if isinstance(values, Ser):
             vt = ("valuesof", values.term, values.ctx)
             return ("in", t, vt)
+        if isinstance(values, Frame):
+            cn = values.colnames()
+            col = values.col(cn[0]) if cn and len(cn) == 1 else ("allcols",)
+            return ("in", t, ("valuesof", col, values.ctx()))
         return ("in", t, to_term(values))
 
     def _series_apply(self, s: Ser, fn: Any, node) -> Ser:
